@@ -151,6 +151,28 @@ def check_model(model, rec):
             rec.nontrivial_case(model)
             rec.label("nontrivial", sample={"text": text} if len(text) < 700 else None)
 
+        # the same Program object extended after its run: new commands are evaluated, earlier results stay as they are
+        if run_exc is None and not fails and model.get("extra_on") is not None:
+            try:
+                lib = prog.command_library
+                before = {k: (id(c._result), numpy.ma.getdata(c._result).tobytes(), numpy.ma.getmaskarray(c._result).tobytes())
+                          for k, c in prog.commands.items() if isinstance(c._result, numpy.ndarray)}
+                targets = [n["name"] for n in model["nodes"] if isinstance(ref[n["name"]], list)][:4]
+                for t in targets:
+                    prog.add_command(lib["Copy"], "Later_" + t, {"InFieldName": t})
+                prog.run()
+                rec.label("extended_after_run")
+                for t in targets:
+                    fs = A.compare(prog.commands["Later_" + t].result, ref[t], (model["rows"],), "Copy|extended_after_run")
+                    fails.extend(fs)
+                for k, (ident, data, mask) in before.items():
+                    c = prog.commands[k]
+                    if id(c._result) != ident or numpy.ma.getdata(c._result).tobytes() != data or numpy.ma.getmaskarray(c._result).tobytes() != mask:
+                        fails.append(Failure("%s|changed_by_second_run" % type(c).__name__, "%s changed when the program was extended and run again\n%s" % (k, text)))
+                        break
+            except Exception as exc:
+                fails.append(Failure("extended_after_run:raises:%s" % A.exc_name(exc), "%s\n%s" % (sstr(exc)[:300], text)))
+
         # metamorphic re-rendering: other order, no metadata, extra consumers
         if run_exc is None and model.get("order2"):
             extra = []
